@@ -397,9 +397,6 @@ Proof.
 Qed.
 
 (* ---- lossless ------------------------------------------------------------------ *)
-Lemma valid_small n : valid_nal n -> True.
-Proof. trivial. Qed.
-
 Lemma len_encs_ge taken n : In n taken -> len n + 2 <= len (encs taken).
 Proof.
   induction taken as [|t taken IH]; intros Hin; [destruct Hin|].
